@@ -50,6 +50,91 @@ Proof.
   - now apply index_search_rows.
 Qed.
 
+(* ---------- the rows of index_search and the matched spans of the reference meaning, as lists ---------- *)
+Definition mkey (m : mspan) : string * string := (m_trace m, m_span m).
+Definition matched_of re_match parse_float (c : ctx) (d : db) (e : attr_exp) : list span :=
+  filter (fun sp => exp_sem re_match parse_float true e (sp_rows sp)) (spans_of c d).
+
+Section SPANS.
+  Variable re_match : string -> string -> bool.
+  Variable parse_float : string -> option Q.
+  Variable c : ctx.
+  Variable d : db.
+  Hypothesis Hcons : db_consistent c d.
+  Hypothesis Hcap : spans_capped c d.
+  Variable e : attr_exp.
+  Notation terms := (fst (snd (analyze_cond e ([], [])))).
+  Hypothesis Hkeys : keys_ok e = true.
+  Hypothesis Hlits : forallb term_lit_ok terms = true.
+  Hypothesis Hlen : List.length terms <= 64.
+  Variable attr : string.
+  Variable conds : list expr.
+  Hypothesis Hc : map_res get_term terms = Ok conds.
+  Notation T := (sql_spans re_match parse_float c d e attr conds).
+  Notation matched := (matched_of re_match parse_float c d e).
+  Notation f := (mspan_of parse_float attr).
+
+  Lemma mem_spans : forall m, In m T <-> exists sp, In sp matched /\ m = f sp.
+  Proof.
+    intros m. destruct Hcons as [Hdates Hunif].
+    rewrite (index_search_rows re_match parse_float c d Hdates Hunif e attr conds Hkeys Hc Hlits Hlen m). unfold matched_of.
+    split; intros [sp H]; exists sp.
+    - destruct H as [H1 [H2 H3]]. split; [apply filter_In; now split|assumption].
+    - destruct H as [H1 H3]. apply filter_In in H1. tauto.
+  Qed.
+
+  (* the (trace, span) pairs of index_search are pairwise distinct *)
+  Lemma sql_spans_NoDup : NoDup (map mkey T).
+  Proof.
+    unfold sql_spans. rewrite map_map.
+    set (F := filter (where_sem re_match parse_float c e attr conds) d).
+    destruct (group_rows_spec same_span same_span_refl same_span_sym same_span_trans F) as [Hcls [_ [Hdis Hnd]]].
+    apply NoDup_map_on; [now apply NoDup_filter|].
+    intros g1 g2 H1 H2 E. apply filter_In in H1, H2. destruct H1 as [H1 _], H2 as [H2 _].
+    destruct (Hcls g1 H1) as [r1 [t1 [E1 _]]]. destruct (Hcls g2 H2) as [r2 [t2 [E2 _]]].
+    apply (Hdis g1 g2 r1 r2 t1 t2 H1 H2 E1 E2). subst g1 g2. unfold mkey, mk_mspan in E. cbn [m_trace m_span] in E.
+    injection E as Et Es. unfold same_span. now rewrite Et, Es, !String.eqb_refl.
+  Qed.
+
+  Lemma spans_of_keys_NoDup : NoDup (map (fun sp => (sp_trace sp, sp_span sp)) (spans_of c d)).
+  Proof.
+    unfold spans_of. rewrite map_map. cbn [sp_trace sp_span].
+    set (W := filter (in_window c) d). generalize (@nil irow) as seen.
+    induction W as [|x W IH]; intros seen; cbn [nodup_by]; [constructor|].
+    destruct (existsb (same_span x) seen); [apply IH|]. cbn [map]. constructor; [|apply IH].
+    intros Hin. apply in_map_iff in Hin. destruct Hin as [y [E Hy]].
+    destruct (nodup_by_spec same_span same_span_refl same_span_sym W (x :: seen)) as [N1 _].
+    destruct (N1 y Hy) as [_ Hex]. cbn [existsb] in Hex. apply orb_false_iff in Hex. destruct Hex as [Hex _].
+    injection E as Et Es. unfold same_span in Hex. now rewrite Et, Es, !String.eqb_refl in Hex.
+  Qed.
+
+  Lemma cap_spans : forall g, In g (group_rows same_tr T) -> List.length g <= 100.
+  Proof.
+    intros g Hg.
+    destruct (group_rows_spec same_tr same_tr_refl same_tr_sym same_tr_trans T) as [Hcls _].
+    destruct (Hcls g Hg) as [r0 [g' [E Ef]]].
+    set (t := m_trace r0).
+    set (ref := filter (fun sp => String.eqb (sp_trace sp) t) (spans_of c d)).
+    apply Nat.le_trans with (List.length (map (fun sp => (sp_trace sp, sp_span sp)) ref)); [|rewrite map_length; apply Hcap].
+    rewrite <- (map_length mkey g). apply NoDup_incl_length.
+    - rewrite Ef. apply NoDup_map_filter. apply sql_spans_NoDup.
+    - intros k Hk. apply in_map_iff in Hk. destruct Hk as [m [<- Hm]]. rewrite Ef in Hm. apply filter_In in Hm. destruct Hm as [HmT Et].
+      apply mem_spans in HmT. destruct HmT as [sp [Hsp ->]]. unfold matched_of in Hsp. apply filter_In in Hsp. destruct Hsp as [Hsp _].
+      apply in_map_iff. exists sp. split; [reflexivity|]. unfold ref. apply filter_In. split; [assumption|].
+      unfold same_tr in Et. cbn [mspan_of m_trace] in Et. now rewrite String.eqb_sym.
+  Qed.
+
+  (* as multisets: index_search holds each matching span exactly once *)
+  Lemma perm_spans : Permutation T (map f matched).
+  Proof.
+    apply NoDup_Permutation.
+    - exact (NoDup_map_inv mkey T sql_spans_NoDup).
+    - apply (NoDup_map_inv mkey). rewrite map_map. cbn [mkey mspan_of m_trace m_span].
+      unfold matched_of. apply NoDup_map_filter. exact spans_of_keys_NoDup.
+    - intros m. rewrite mem_spans, in_map_iff. split; intros [sp [H1 H2]]; exists sp; split; auto.
+  Qed.
+End SPANS.
+
 Section SINGLE.
   Variable re_match : string -> string -> bool.
   Variable parse_float : string -> option Q.
@@ -104,60 +189,13 @@ Section SINGLE.
   Qed.
 
   Notation T conds := (sql_spans re_match parse_float c d e "" conds).
-  Definition matched1 : list span := filter (fun sp => exp_sem re_match parse_float true e (sp_rows sp)) (spans_of c d).
-
+  Definition matched1 : list span := matched_of re_match parse_float c d e.
   Lemma mem1 conds : map_res get_term terms = Ok conds ->
     forall m, In m (T conds) <-> exists sp, In sp matched1 /\ m = mspan_of parse_float "" sp.
-  Proof.
-    intros Hc m. destruct Hcons as [Hdates Hunif].
-    rewrite (index_search_rows re_match parse_float c d Hdates Hunif e "" conds Hkeys Hc Hlits Hlen m). unfold matched1.
-    split; intros [sp H]; exists sp.
-    - destruct H as [H1 [H2 H3]]. split; [apply filter_In; now split|assumption].
-    - destruct H as [H1 H3]. apply filter_In in H1. tauto.
-  Qed.
-
-  (* the (trace, span) pairs of index_search are pairwise distinct *)
-  Definition mkey (m : mspan) : string * string := (m_trace m, m_span m).
-  Lemma sql_spans_NoDup conds : NoDup (map mkey (T conds)).
-  Proof.
-    unfold sql_spans. rewrite map_map.
-    set (F := filter (where_sem re_match parse_float c e "" conds) d).
-    destruct (group_rows_spec same_span same_span_refl same_span_sym same_span_trans F) as [Hcls [_ [Hdis Hnd]]].
-    apply NoDup_map_on; [now apply NoDup_filter|].
-    intros g1 g2 H1 H2 E. apply filter_In in H1, H2. destruct H1 as [H1 _], H2 as [H2 _].
-    destruct (Hcls g1 H1) as [r1 [t1 [E1 _]]]. destruct (Hcls g2 H2) as [r2 [t2 [E2 _]]].
-    apply (Hdis g1 g2 r1 r2 t1 t2 H1 H2 E1 E2). subst g1 g2. unfold mkey, mk_mspan in E. cbn [m_trace m_span] in E.
-    injection E as Et Es. unfold same_span. now rewrite Et, Es, !String.eqb_refl.
-  Qed.
-
-  Lemma spans_of_keys_NoDup : NoDup (map (fun sp => (sp_trace sp, sp_span sp)) (spans_of c d)).
-  Proof.
-    unfold spans_of. rewrite map_map. cbn [sp_trace sp_span].
-    set (W := filter (in_window c) d). generalize (@nil irow) as seen.
-    induction W as [|x W IH]; intros seen; cbn [nodup_by]; [constructor|].
-    destruct (existsb (same_span x) seen); [apply IH|]. cbn [map]. constructor; [|apply IH].
-    intros Hin. apply in_map_iff in Hin. destruct Hin as [y [E Hy]].
-    destruct (nodup_by_spec same_span same_span_refl same_span_sym W (x :: seen)) as [N1 _].
-    destruct (N1 y Hy) as [_ Hex]. cbn [existsb] in Hex. apply orb_false_iff in Hex. destruct Hex as [Hex _].
-    injection E as Et Es. unfold same_span in Hex. now rewrite Et, Es, !String.eqb_refl in Hex.
-  Qed.
-
+  Proof. intros Hc. exact (mem_spans re_match parse_float c d Hcons e Hkeys Hlits Hlen "" conds Hc). Qed.
   Lemma cap1 conds : map_res get_term terms = Ok conds ->
     forall g, In g (group_rows same_tr (T conds)) -> List.length g <= 100.
-  Proof.
-    intros Hc g Hg.
-    destruct (group_rows_spec same_tr same_tr_refl same_tr_sym same_tr_trans (T conds)) as [Hcls _].
-    destruct (Hcls g Hg) as [r0 [g' [E Ef]]].
-    set (t := m_trace r0).
-    set (ref := filter (fun sp => String.eqb (sp_trace sp) t) (spans_of c d)).
-    apply Nat.le_trans with (List.length (map (fun sp => (sp_trace sp, sp_span sp)) ref)); [|rewrite map_length; apply Hcap].
-    rewrite <- (map_length mkey g). apply NoDup_incl_length.
-    - rewrite Ef. apply NoDup_map_filter. apply sql_spans_NoDup.
-    - intros k Hk. apply in_map_iff in Hk. destruct Hk as [m [<- Hm]]. rewrite Ef in Hm. apply filter_In in Hm. destruct Hm as [HmT Et].
-      apply (mem1 conds Hc) in HmT. destruct HmT as [sp [Hsp ->]]. unfold matched1 in Hsp. apply filter_In in Hsp. destruct Hsp as [Hsp _].
-      apply in_map_iff. exists sp. split; [reflexivity|]. unfold ref. apply filter_In. split; [assumption|].
-      unfold same_tr in Et. cbn [mspan_of m_trace] in Et. now rewrite String.eqb_sym.
-  Qed.
+  Proof. intros Hc. exact (cap_spans re_match parse_float c d Hcons Hcap e Hkeys Hlits Hlen "" conds Hc). Qed.
 
   (* the reference meaning of the script, literals as printed / exact literals *)
   Lemma sem_single_round : traceql_sem re_match parse_float false c d q1 = all_ref matched1 (fun _ => true).
